@@ -342,14 +342,21 @@ func init() {
 		d := e.StoresToField(ls, "am/cluster/clusterpb.Part", "Data")
 		o.Check(len(k) == 1 && e.X(ls, k[0].Val) == "next(range(recv.Peer.states))#1", "local-key", "each part must carry its state's key", nil)
 		o.Check(len(d) == 1 && e.X(ls, d[0].Val) == e.X(ls, mb.(*ssa.Call))+"#0", "local-data", "each part must carry its state's serialisation", nil)
+		// the part of the iteration is appended to what becomes FullState.Parts (directly, or to a list stored there later)
 		var app ssa.Instruction
+		var inLoop []ssa.Instruction
 		for _, st := range e.StoresToField(ls, "am/cluster/clusterpb.FullState", "Parts") {
 			if _, parts := e.AppendParts(st.Val); len(parts) > 0 {
 				app = st
+				for _, p := range parts {
+					if p.Call != nil && ll.Blocks[p.Call.Block().Index] {
+						inLoop = append(inLoop, p.Call)
+					}
+				}
 			}
 		}
-		if o.Check(app != nil, "local-append", "parts are not collected", nil) {
-			o.Check(!loopBackWithout(o, ll, IsInstr(app), e.CutContradicting(mOK)), "local-skip", "a state can be left out of the full state", app)
+		if o.Check(app != nil && len(inLoop) > 0, "local-append", "parts are not collected", nil) {
+			o.Check(!loopBackWithout(o, ll, IsInstr(inLoop...), e.CutContradicting(mOK)), "local-skip", "a state can be left out of the full state", app)
 		}
 		o.MinSites(2)
 	}
